@@ -14,6 +14,7 @@ import SpVerif.Ops.Parser
 import SpVerif.Ops.Uslp
 import SpVerif.Ops.Verificator
 import SpVerif.Ops.DirectiveFixed
+import SpVerif.Ops.DirectiveVar
 /-!
 # Line-protocol driver: one JSON object per input line (`{"op": …, …}`), one JSON result per output line.
 `{"ok": …}` / `{"err": "<category>"}` are model results; `{"bad": "<msg>"}` is a protocol error.
@@ -37,6 +38,7 @@ def allOps : List (String × Handler) := []
   ++ Ops.Uslp.ops
   ++ Ops.Verificator.ops
   ++ Ops.DirectiveFixed.ops
+  ++ Ops.DirectiveVar.ops
 
 def table : Std.HashMap String Handler := Std.HashMap.ofList allOps
 
